@@ -208,7 +208,17 @@ def run(ctx):
                 if x[0] == 'bin' and x[1].startswith('Sub'):
                     pass
             olds = {l for _, l in old_reads}
-            if any(_depends_on_local(an, blk.term.discr, l) for l in olds) or 'avail' in kinds:
+            # "governed by the delta": the tested value derives from a difference of the old and the new limit (a counter
+            # initialised with old - new), not merely from the old limit (`size > old_max_size` is not a ledger)
+            delta = False
+            for x in src:
+                if x[0] == 'bin' and x[1].startswith('Sub'):
+                    for st_ in z.blocks[x[2]].stmts:
+                        if st_.kind == 'assign' and st_.rv.kind == 'bin' and st_.rv.binop.startswith('Sub'):
+                            ka = classify_operand(st_.rv.ops[0]); kb = classify_operand(st_.rv.ops[1])
+                            if ('old' in ka and 'new' in kb) or ('new' in ka and 'old' in kb):
+                                delta = True
+            if (delta and any(_depends_on_local(an, blk.term.discr, l) for l in olds)) or 'avail' in kinds:
                 ok = True
         # R07.6: unless the loop is governed by the delta (R07.5), its condition must be exactly `size > max_size`
         # (the documented behaviour whose residue is known finding D1); any other condition is a new violation
@@ -218,6 +228,8 @@ def run(ctx):
                 for lab, tgt in blk.term.switch_arms():
                     if f.idx in an.reach([tgt], ('normal',), avoid=[blk.idx]):
                         rel = cmp_relation(an, r, blk, lab)
+                        if rel and any(_depends_on_local(an, blk.term.discr, l) for l in {l for _, l in old_reads}):
+                            rel = (rel[0].replace('max', 'OLD max_size (read before the write)'), rel[1])
                         rels.append(rel[0] if rel else 'other(%s)' % sorted({x[1] for x in sources(an, blk.term.discr) if x[0] in ('field', 'call')}))
             # only comparisons count (the try_acquire Ok test is a Result switch, not a bool switch)
             ctx.ob('R07.6', 'the shrink releases objects / permits exactly while size > max_size', rels == ['size>max'], ctx.where(z, f.term.line),
